@@ -1025,6 +1025,10 @@ pub fn replay_line(line: &str, o: &mut Out) {
             },
             _ => bad(o),
         },
+        "npm" => match (f.get(2).and_then(|x| unhex(x)), f.get(3).and_then(|x| dec_version(x))) {
+            (Some(t), Some(v)) => o.npm(f[1], &t, &v),
+            _ => bad(o),
+        },
         "isect" | "rdiff" | "any" | "all" => match (f.get(1).and_then(|x| unhex(x)), f.get(2).and_then(|x| unhex(x))) {
             (Some(ta), Some(tb)) => match (Range::parse(&ta), Range::parse(&tb)) {
                 // the four set operations are always emitted together; replay emits all four
